@@ -41,7 +41,7 @@ def addrArg (s : String) : Option MsgAddr :=
     pure (.var a wc b)
   | _ => none
 
-def addrOut : MsgAddr → String
+private def addrOut : MsgAddr → String
   | .none => "none"
   | .extern b => "ext/" ++ binOut b
   | .std a wc bs => s!"std/{anyOut a}/{wc}/{hexOut bs}"
@@ -59,7 +59,7 @@ def outMap {α} (f : α → String) : Outcome α → Outcome String
   | .panic e => .panic e
 
 /-- resolve the family tokens; returns the codec and the remaining tokens -/
-def codecOf : List String → Option (Codec × List String)
+private def codecOf : List String → Option (Codec × List String)
   | "uint" :: b :: rest => b.toNat?.map fun bits =>
       (⟨fun | [v] => v.toNat?.map (printUintN bits) | _ => none, fun p => outMap toString (parseUintN bits p)⟩, rest)
   | "int" :: b :: rest => b.toNat?.map fun bits =>
